@@ -680,7 +680,14 @@ public:
             fmt::arg(
                 "offset_impl", make_offset_impl(context.offset_in_composite)),
             fmt::arg("since_version", r.added_since),
-            fmt::arg("deprecated_impl", make_deprecated(r.deprecated_since)));
+            // don't expose `deprecated()` inherited from the target's traits
+            // when `<ref>` itself doesn't have this attribute
+            fmt::arg(
+                "deprecated_impl",
+                r.deprecated_since
+                    ? make_deprecated(r.deprecated_since)
+                    : "static constexpr version_t deprecated() noexcept = "
+                      "delete;"));
     }
 
     std::string get_num_in_group_underlying_type(const sbe::group& g) const
